@@ -635,6 +635,26 @@ fn main() {
                     let other_encoding = is_subject && probe != ins;
                     acc.case(other_encoding || !present, out.class());
                 }
+                // Membership is about KEYS: the same map with `none` and with an undefined value
+                // stored under every key (a map literal built from a missing variable, or
+                // Value::undefined() put in by the embedder) still has them. (Seeded change C15-13
+                // answered `k in m` through subscripting: "found and not undefined".)
+                for (vname, stored) in [("none", V::None), ("undefined", V::Undef)] {
+                    let m2 = V::Map(entries.iter().map(|(k, _)| (k.clone(), stored.clone())).collect());
+                    // (vals::context leaves an undefined binding out; the map itself is always bound)
+                    let ctx2 = vals::context(&[("m", &m2), ("k", &probe.as_v())]);
+                    for (src, want) in [("{{ k in m }}", format!("{present}")), ("{{ k not in m }}", format!("{}", !present)), ("{{ m is containing(pat=k) }}", format!("{present}")), ("{{ k in (m | keys) }}", format!("{present}"))] {
+                        let out = engine::render_str(&tera_inst, src, &ctx2, false);
+                        if out.ok() != Some(want.as_str()) {
+                            acc.violation(
+                                format!("lookup:{}:stored-{vname}", if src.contains("containing") { "containing" } else if src.contains("keys") { "keys" } else { "in" }),
+                                format!("{src} on a map storing {vname} under every key gave {}, expected {want:?}", out.show()),
+                                || json!({"template": src, "map": m2.describe(), "probe": probe.describe(), "present": present}),
+                            );
+                        }
+                        acc.case(present, out.class());
+                    }
+                }
                 if item == 40 && matches!(probe, K::U64(1)) {
                     acc.sample(|| case("{{ m[k] }} / {{ k in m }} / {{ m is containing(pat=k) }}"));
                 }
